@@ -5,6 +5,7 @@ import SurfProofs.C07
 import SurfProofs.C03
 import SurfProofs.Lemmas.TextChunk
 import SurfProofs.Lemmas.TextRender
+import SurfProofs.Lemmas.TextChunkUtf8
 /-!
 # C09 — text writing stays inside its surface, ignores chunking and loses no cell
 
@@ -14,7 +15,7 @@ surface width as maximum width — by `TerminalWriter::put_cell`).
 -/
 namespace SurfProofs.C09
 open SurfModel.Shape SurfModel.Tokenizer SurfModel.TextLayout SurfProofs.Lemmas.TextLayout SurfProofs.Lemmas.TextWriter
-  SurfProofs.Lemmas.TextChunk SurfProofs.Lemmas.TextRender
+  SurfProofs.Lemmas.TextChunk SurfProofs.Lemmas.TextRender SurfProofs.Lemmas.TextChunkUtf8
 
 /-- **C09, layout agrees.** Lay a cell stream out at maximum width `W ≥ 1` and let `(H', W')` be the
 tracked size. Then at every width `W''` with `W' ≤ W'' ≤ W` (in particular at the width of a surface of the
@@ -244,6 +245,88 @@ example : (match session utf8Auto putChar exWr (uinit utf8Auto) [[0x61, 0xe4], [
 example : (match session utf8Auto putChar exWr (uinit utf8Auto) [[0x61, 0xe4, 0xb8, 0x96]] with
     | .ok (w, rs) => some (w.touched, rs) | .error _ => none) = some ([6, 7], [true]) := by decide
 
+
+/-! ## chunking for the UTF-8 automaton: nothing left to assume
+
+`SurfModel.Utf8.utf8Auto` is the model of `UTF8DFA`: the subset automaton compiled from the model of
+`utf8_nfa(Canonical)`, which C02 proves to match exactly the well-formed sequences of Unicode Table 3-7
+(`C02_utf8_wellformed`) and never to keep more than four bytes alive (`utf8Auto_short`, the fact behind
+`C02_utf8_decoder`). Over it the hypotheses of `C09_chunking_writer` / `_text` are theorems: the decoder's
+four byte buffer is never overrun, `utf8_decode` always gets one to four bytes, the loop bound is never
+exhausted, and `put_char` does not panic (`C09_contained`), so both sessions return. -/
+
+/-- **C09, the two UTF-8 automata agree.** The hand-written Table 3-7 automaton the driver runs
+(`SurfModel.TextLayout.utf8Auto`, tied to the code by the `write` correspondence) and the compiled automaton of
+C02 are bisimilar (kernel-checked on the product of the two, `SurfProofs.Utf8AutoBisim.utf8_bisim`); hence a
+session over one is the session over the other — same sink, same results, same faults — for every sink and
+every partition. -/
+theorem C09_utf8_automata_agree {π : Type} (put : π → Nat → Option (π × Bool)) (p : π) (chunks : List (List UInt8)) :
+    session utf8Auto put p (uinit utf8Auto) chunks =
+      session SurfModel.Utf8.utf8Auto put p (uinit SurfModel.Utf8.utf8Auto) chunks :=
+  session_bisim SurfProofs.Utf8AutoBisim.utf8_bisim put chunks p _ _ SurfProofs.Utf8AutoBisim.utf8_bisim.start rfl
+
+/-- **C09, chunking (`TerminalWriter`, `utf8_writer`), unconditional for UTF-8.** A writer over any view of an
+`h × w` surface (any chain of `view` / `transpose` steps), in any state; any byte stream — well-formed or not —
+cut into writes anywhere (inside a character, empty writes): the chunked session and the single write of the
+whole stream both return (no panic, no overrun of the four byte buffer, no exhausted loop bound), and the
+cells of the surface are the same. Stated for the compiled UTF-8 automaton and for the driver's
+hand-written one. -/
+theorem C09_chunking_writer_utf8 (h w : Nat) (ops : List Op) (wr : Writer)
+    (hs : wr.shape = Shape.chain ops (Shape.from h w)) (hd : wr.data.length = h * w)
+    (chunks : List (List UInt8)) :
+    (∃ w1 rs1 w2 rs2,
+      session SurfModel.Utf8.utf8Auto putChar wr (uinit SurfModel.Utf8.utf8Auto) chunks = .ok (w1, rs1) ∧
+      session SurfModel.Utf8.utf8Auto putChar wr (uinit SurfModel.Utf8.utf8Auto) [chunks.flatten] = .ok (w2, rs2) ∧
+      w1.data = w2.data) ∧
+    (∃ w1 rs1 w2 rs2,
+      session utf8Auto putChar wr (uinit utf8Auto) chunks = .ok (w1, rs1) ∧
+      session utf8Auto putChar wr (uinit utf8Auto) [chunks.flatten] = .ok (w2, rs2) ∧
+      w1.data = w2.data) := by
+  have hok : ShOk wr.shape wr.data.length := by rw [hs, hd]; exact shOk_chain h w ops
+  have key : ∃ w1 rs1 w2 rs2,
+      session SurfModel.Utf8.utf8Auto putChar wr (uinit SurfModel.Utf8.utf8Auto) chunks = .ok (w1, rs1) ∧
+      session SurfModel.Utf8.utf8Auto putChar wr (uinit SurfModel.Utf8.utf8Auto) [chunks.flatten] = .ok (w2, rs2) ∧
+      w1.data = w2.data := by
+    obtain ⟨w1, rs1, h1⟩ := session_total SurfModel.Utf8.utf8Auto SurfProofs.Utf8Dec.utf8Auto_short putChar
+      (fun w => ShOk w.shape w.data.length) putChar_total chunks wr _ hok (dinv_uinit _)
+    obtain ⟨w2, rs2, h2⟩ := session_total SurfModel.Utf8.utf8Auto SurfProofs.Utf8Dec.utf8Auto_short putChar
+      (fun w => ShOk w.shape w.data.length) putChar_total [chunks.flatten] wr _ hok (dinv_uinit _)
+    obtain ⟨per, dEnd, hdec⟩ := ufeedAll_total SurfModel.Utf8.utf8Auto SurfProofs.Utf8Dec.utf8Auto_short chunks
+    exact ⟨w1, rs1, w2, rs2, h1, h2,
+      C09_chunking_writer _ h w ops wr hs hd chunks per dEnd hdec w1 w2 rs1 rs2 h1 h2⟩
+  refine ⟨key, ?_⟩
+  rw [C09_utf8_automata_agree, C09_utf8_automata_agree]
+  exact key
+
+/-- **C09, chunking (a `Text` as the sink of `utf8_writer`), unconditional for UTF-8.** Both sessions return
+and the cells collected do not depend on how the bytes were split. -/
+theorem C09_chunking_text_utf8 (t : Text) (chunks : List (List UInt8)) :
+    (∃ t1 rs1 t2 rs2,
+      session SurfModel.Utf8.utf8Auto Text.putChar t (uinit SurfModel.Utf8.utf8Auto) chunks = .ok (t1, rs1) ∧
+      session SurfModel.Utf8.utf8Auto Text.putChar t (uinit SurfModel.Utf8.utf8Auto) [chunks.flatten] = .ok (t2, rs2) ∧
+      t1.cells = t2.cells) ∧
+    (∃ t1 rs1 t2 rs2,
+      session utf8Auto Text.putChar t (uinit utf8Auto) chunks = .ok (t1, rs1) ∧
+      session utf8Auto Text.putChar t (uinit utf8Auto) [chunks.flatten] = .ok (t2, rs2) ∧
+      t1.cells = t2.cells) := by
+  have key : ∃ t1 rs1 t2 rs2,
+      session SurfModel.Utf8.utf8Auto Text.putChar t (uinit SurfModel.Utf8.utf8Auto) chunks = .ok (t1, rs1) ∧
+      session SurfModel.Utf8.utf8Auto Text.putChar t (uinit SurfModel.Utf8.utf8Auto) [chunks.flatten] = .ok (t2, rs2) ∧
+      t1.cells = t2.cells := by
+    obtain ⟨t1, rs1, h1⟩ := session_total SurfModel.Utf8.utf8Auto SurfProofs.Utf8Dec.utf8Auto_short Text.putChar
+      (fun _ => True) (fun t c _ => textPutChar_total t c) chunks t _ trivial (dinv_uinit _)
+    obtain ⟨t2, rs2, h2⟩ := session_total SurfModel.Utf8.utf8Auto SurfProofs.Utf8Dec.utf8Auto_short Text.putChar
+      (fun _ => True) (fun t c _ => textPutChar_total t c) [chunks.flatten] t _ trivial (dinv_uinit _)
+    obtain ⟨per, dEnd, hdec⟩ := ufeedAll_total SurfModel.Utf8.utf8Auto SurfProofs.Utf8Dec.utf8Auto_short chunks
+    exact ⟨t1, rs1, t2, rs2, h1, h2, C09_chunking_text _ t chunks per dEnd hdec t1 t2 rs1 rs2 h1 h2⟩
+  refine ⟨key, ?_⟩
+  rw [C09_utf8_automata_agree, C09_utf8_automata_agree]
+  exact key
+
+/-- a malformed stream (`E4 B8` cut short by `61`, then `世` cut inside) through the compiled automaton into
+the 3 × 2 window of `exWr`: error, then both characters -/
+example : (match session utf8Auto putChar exWr (uinit utf8Auto) [[0xe4, 0xb8], [0x61, 0xe4], [0xb8, 0x96]] with
+    | .ok (w, rs) => some (w.touched, rs) | .error _ => none) = some ([], [true, false]) := by decide
 
 /-! ## completeness -/
 
